@@ -289,6 +289,83 @@ def check_writers(ctx, fb, rw):
                        'writer: ' + f.full[:300])
 
 
+def check_bind(ctx, fb, rule):
+    """R-ROUTE.bind: where a step's executor comes from.
+       detail::SetCallback (the step factory) stores its `executor` argument into the new core on every path, before
+         the core is attached;
+       BaseCore::TransferExecutorTo(callback) hands the predecessor's executor on exactly when the callback has none
+         of its own (Then(e, f) keeps e; Then(f) on a FutureOn inherits)."""
+    n = 0
+    for f in fb.fn.values():
+        if f.cfg is None:
+            continue
+        if f.qn == 'yaclib::detail::SetCallback' and '/algo/detail/core.hpp' in f.file:
+            key = 'R-ROUTE.bind detail::SetCallback'
+            ctx.instance(rule, key + ' :: ' + f.full[:110], None)
+            n += 1
+            ws = []
+            for w in executor_writes(f):
+                src = f.sn((w.get('args') or w.get('ch'))[1]) if len(w.get('args') or w.get('ch') or []) > 1 else None
+                while src is not None and src['k'] in ('CXXConstructExpr', 'MaterializeTemporaryExpr',
+                                                       'CXXBindTemporaryExpr') and (src.get('args') or src.get('ch')):
+                    src = f.sn((src.get('args') or src.get('ch'))[0])
+                if src is not None and src['k'] == 'DeclRefExpr' and src.get('id') in f.params and \
+                        'IExecutor' in f.locals[src['id']]['t']:
+                    ws.append(w)
+            ok = False
+            if ws:
+                ids = {w['i'] for w in ws}
+
+                def is_bind(b, i, e):
+                    return isinstance(e, int) and (e in ids or any(d in ids for d in f.descendants(e)))
+                ok = f.cfg.reaches_exit_without((f.cfg.entry, -1), is_bind) is None
+            if not ok:
+                ctx.report(rule, key, f.where, 'the step factory does not store its executor argument into the new core '
+                           'on every path: Then(e, f) / Detach(e, f) do not run on e', 'instantiation: ' + f.full[:300])
+        elif f.qn == 'yaclib::detail::BaseCore::TransferExecutorTo':
+            key = 'R-ROUTE.bind BaseCore::TransferExecutorTo'
+            ctx.instance(rule, key + ' :: ' + f.full[:110], None)
+            n += 1
+            cb = f.params[0]
+            ws = executor_writes(f)
+            # structural: every write is dominated by a branch on callback._executor, taken on its false (null) edge
+            cfg = f.cfg
+            guarded = bool(ws)
+            for w in ws:
+                pw = cfg.pos_of(w['i'])
+                g = False
+                for b, blk in cfg.blocks.items():
+                    if blk.cond is None or len(blk.succ) != 2:
+                        continue
+                    c = f.sn(blk.cond)
+                    neg = False
+                    while c is not None and c['k'] == 'UnaryOperator' and c['op'] == '!':
+                        neg = not neg
+                        c = f.sn(c['ch'][0])
+                    txt = f.text(blk.cond)
+                    if '_executor' not in txt or f.locals[cb]['n'] not in txt:
+                        continue
+                    # successor taken when the callback has NO executor
+                    null_succ = blk.succ[0] if neg else blk.succ[1]
+                    other = blk.succ[1] if neg else blk.succ[0]
+                    if null_succ is not None and pw and cfg.dominates((null_succ, -1), pw) and \
+                            not (other is not None and cfg.dominates((other, -1), pw)):
+                        g = True
+                guarded = guarded and g
+                src_txt = f.text((w.get('args') or w.get('ch'))[1]) if len(w.get('args') or w.get('ch') or []) > 1 else ''
+                if '_executor' not in src_txt:
+                    guarded = False
+            if not ws:
+                ctx.report(rule, key, f.where, 'a step without an executor of its own does not inherit its '
+                           'predecessor\'s: Then(f) on a FutureOn does not run on the inherited executor',
+                           'instantiation: ' + f.full[:300])
+            elif not guarded:
+                ctx.report(rule, key, f.loc(ws[0]), 'the predecessor\'s executor is handed on without testing that the '
+                           'callback has none of its own: Then(e, f) runs on the inherited executor instead of e',
+                           'instantiation: ' + f.full[:300])
+    return n
+
+
 def run(ctx):
     fbs = ctx.facts(['K17', 'K20'], kinds=('probe', 'lib'), tests=r'/test/',
                     quick_tests=r'unit/exe/|unit/async/future\.cpp')
@@ -305,6 +382,8 @@ def run(ctx):
                    'path)', minimum=2)
     rst = ctx.rule('R-START', '(shared with C12) ToFuture(e)/Detach(e): the executor is bound to the head returned by '
                    'the rewind and that head is submitted to it', minimum=2)
+    rbd = ctx.rule('R-ROUTE.bind', 'the step factory stores its executor argument into the new core; the predecessor\'s '
+                   'executor is inherited exactly when the step has none of its own', minimum=8)
     rpk = ctx.rule('R-LOCKSET', '(shared with C08) FairThreadPool: the acceptance test and the enqueue happen under one '
                    'lock hold; jobs are Called / Dropped with the lock released', minimum=6)
     rpd = ctx.rule('R-DRAIN', '(shared with C08) a worker returns only after seeing the queue empty; the stopped bit is '
@@ -341,6 +420,8 @@ def run(ctx):
             if check_awaiters(ctx, fb, ra) < 3:
                 ctx.broken('executor-naming awaiters not found')
         ctx.guard(lambda: check_writers(ctx, fb, rw))
+        if (ctx.guard(lambda: check_bind(ctx, fb, rbd)) or 0) < 4:
+            ctx.guard(lambda: ctx.broken('R-ROUTE.bind: SetCallback / TransferExecutorTo not instantiated in %s' % cfg))
         if cfg != 'K17':
             if check_resume_executor(ctx, fb, rre) < 2:
                 ctx.broken('PromiseType::Impl not instantiated in %s' % cfg)
